@@ -539,3 +539,85 @@ func (m *Model) RunIllegalSticky(s *Sink, rule string) {
 		s.Undecided(rule, "lexer|unknown-character token", "-", "no newToken(ILLEGAL, string(l.char)) site found")
 	}
 }
+
+// RunIllegalTop — R-ILLEGAL (top level): a statement parser may stop ON the token that follows its statement (the slot
+// list of a component use ends on whatever comes after the last @end). In ParseProgram that token is looked at before
+// the parser steps on: every path from the statement parser's return to the next step passes the test "the current
+// token is ILLEGAL". With the test made only before the statement is parsed, an ILLEGAL token that consumed input (an
+// unterminated comment) is stepped over unseen and the truncated template is accepted.
+func (m *Model) RunIllegalTop(s *Sink, rule string) {
+	pp := m.Method("parser", "Parser", "ParseProgram")
+	ps := m.Method("parser", "Parser", "parseStatement")
+	nt := m.Method("parser", "Parser", "nextToken")
+	illegal := int64(-1)
+	for v, n := range tokenConstNames {
+		if n == "ILLEGAL" {
+			illegal = v
+		}
+	}
+	if pp == nil || ps == nil || nt == nil || illegal < 0 {
+		s.Undecided(rule, "parser.ParseProgram", "-", "ParseProgram / parseStatement / nextToken / token.ILLEGAL not found")
+		return
+	}
+	isTest := func(c ssa.CallInstruction) bool {
+		sc := c.Common().StaticCallee()
+		if sc == nil || canonFnName(sc) != "curTokenIs" || len(c.Common().Args) < 2 {
+			return false
+		}
+		k, ok := c.Common().Args[1].(*ssa.Const)
+		return ok && k.Value != nil && k.Int64() == illegal
+	}
+	var fns []*ssa.Function
+	for _, h := range m.helpersOf(pp) {
+		fns = append(fns, h)
+	}
+	pi := m.newPassInfo(isTest, func(*ssa.Call) bool { return false }, fns, nil)
+	key := fnKey(pp) + "|the token a statement ends on is tested for ILLEGAL before the parser steps on"
+	nStmt, bad := 0, ""
+	for _, fn := range fns {
+		for _, b := range fn.Blocks {
+			for i, in := range b.Instrs {
+				c, ok := in.(*ssa.Call)
+				if !ok || c.Call.StaticCallee() != ps {
+					continue
+				}
+				nStmt++
+				// a step reachable from here without the test
+				for _, b2 := range fn.Blocks {
+					for j, in2 := range b2.Instrs {
+						c2, ok2 := in2.(*ssa.Call)
+						if !ok2 || c2.Call.StaticCallee() != nt {
+							continue
+						}
+						target, idx := b2, j
+						if pi.pathAvoiding(fn, b, i+1, func(x *ssa.BasicBlock) bool {
+							if x != target {
+								return false
+							}
+							from := 0
+							if x == b {
+								from = i + 1
+							}
+							for k := from; k < idx && k < len(x.Instrs); k++ {
+								if ci, isCI := x.Instrs[k].(ssa.CallInstruction); isCI && isTest(ci) {
+									return false
+								}
+							}
+							return true
+						}, nil) && bad == "" {
+							bad = m.InstrPos(c2)
+						}
+					}
+				}
+			}
+		}
+	}
+	switch {
+	case nStmt == 0:
+		s.Undecided(rule, key, m.Pos(pp.Pos()), "no call of parseStatement in ParseProgram")
+	case bad != "":
+		s.Violation(rule, key, bad, "ParseProgram can step to the next token at %s after a statement was parsed without having tested the current token for ILLEGAL since: a statement parser may stop on the token after its statement, and an ILLEGAL token that has consumed input (an unterminated comment) is then skipped — the truncated template is accepted without an error", bad)
+	default:
+		s.OK(rule, key, m.Pos(pp.Pos()), "every path from parseStatement to the next nextToken passes curTokenIs(ILLEGAL)")
+	}
+}
